@@ -1160,4 +1160,219 @@ def denFillInto (o : Obj) (ms : Meths) : FillIntoMode → Option (Pre Value)
 /-- the behaviour of `FillCompute(el, fill=…, compute=…)` for the bound pair of names -/
 def denFillCompute (ms : Meths) (b : String × String) : Option (Acc AccState Value) := ms.accM b.1 b.2
 
+/-! ## `Split.run` with branches of all four types (`lena/core/split.py` lines 318-408)
+
+`_get_seq_with_type` gives every branch one of the types "fill_compute", "fill_request", "sequence", "source".  The
+model above (`processBuf`, `splitLoop`) is the case in which every branch is "fill_compute"; here the siblings of a
+chain may be of any type.  Values are immutable in this model: every branch sees the buffer as it was read (what
+`copy.deepcopy(orig_buf)` for every branch but the last guarantees in the code when `copy_buf` is true). -/
+
+section mixed
+variable {σ α : Type}
+
+/-- a branch of a `Split` after `_get_seq_with_type` -/
+inductive Branch (σ α : Type) where
+  /-- "fill_compute": a `FillComputeSeq` (filled with every buffer; `compute` after the flow, or at once when it
+  raises `LenaStopFill`) -/
+  | fillCompute (c : Chain σ α)
+  /-- "fill_request": a `FillRequestSeq(*seq, reset=False)`: filled with every buffer, `request()` yielded after every
+  buffer.  `c.acc.compute` stands for the `request` of its FillRequest element (which does not change the element:
+  no reset), `c.post` for the elements after it (run anew for every request: no state between the runs) -/
+  | fillRequest (c : Chain σ α)
+  /-- "sequence": `seq.run(buf)` for every buffer (a `Stage`: no state between the runs) -/
+  | sequence (run : Stage α)
+  /-- "source": `seq()` yields its own flow, once -/
+  | source (out : Strm α)
+
+/-- an active branch of `Split.run`, with its position in the initializer list -/
+inductive MActive (σ α : Type) where
+  | fc (B : Active σ α)
+  | fr (B : Active σ α)
+  | seq (idx : Nat) (run : Stage α)
+  | src (idx : Nat) (out : Strm α)
+
+def MActive.idx : MActive σ α → Nat
+  | .fc B => B.idx
+  | .fr B => B.idx
+  | .seq i _ => i
+  | .src i _ => i
+
+/-- the loop `while ind < n_of_active_seqs` for one (non-empty) buffer, lines 358-395:
+* "source": its whole flow is yielded, the branch is deleted;
+* "fill_compute": filled with the buffer; on `LenaStopFill` computed at once, yielded and deleted;
+* "fill_request": filled with the buffer (until `LenaStopFill`), then `request()` is yielded; deleted if it stopped;
+* "sequence": `seq.run(buf)` is yielded.
+Any other exception ends the generator.  Returns the branches still active and what was yielded (tagged). -/
+def processBufM (buf : List α) : List (MActive σ α) → List (MActive σ α) × Strm (Nat × α)
+  | [] => ([], .nil)
+  | .src i out :: rest =>
+    let (act, o) := processBufM buf rest
+    (act, (tag i out).andThen o)
+  | .fc B :: rest =>
+    match feedList (chainSink B.chain.acc B.chain.pre) B.st buf with
+    | .err e => ([], .fail e)
+    | .ok st' =>
+      let (act, o) := processBufM buf rest
+      (.fc { B with st := st' } :: act, o)
+    | .stop st' =>
+      let (act, o) := processBufM buf rest
+      (act, (tag B.idx (computeAfter B.chain (chainAcc B.chain.pre st'))).andThen o)
+  | .fr B :: rest =>
+    match feedList (chainSink B.chain.acc B.chain.pre) B.st buf with
+    | .err e => ([], .fail e)
+    | .ok st' =>
+      let (act, o) := processBufM buf rest
+      (.fr { B with st := st' } :: act, (tag B.idx (computeAfter B.chain (chainAcc B.chain.pre st'))).andThen o)
+    | .stop st' =>
+      let (act, o) := processBufM buf rest
+      (act, (tag B.idx (computeAfter B.chain (chainAcc B.chain.pre st'))).andThen o)
+  | .seq i run :: rest =>
+    let (act, o) := processBufM buf rest
+    (.seq i run :: act, (tag i (observe (run (.ofList buf)))).andThen o)
+
+/-- lines 397-408, after the flow is exhausted: a source that is still active is called (the flow was empty:
+`processBufM` deletes every source with the first buffer), `compute` of the fill_compute branches, and — only if the
+flow was empty — `request()` resp. `run([])` of the others -/
+def finalM (flowWasEmpty : Bool) : List (MActive σ α) → Strm (Nat × α)
+  | [] => .nil
+  | .src i out :: rest => (tag i out).andThen (finalM flowWasEmpty rest)
+  | .fc B :: rest =>
+    (tag B.idx (computeAfter B.chain (chainAcc B.chain.pre B.st))).andThen (finalM flowWasEmpty rest)
+  | .fr B :: rest =>
+    if flowWasEmpty then
+      (tag B.idx (computeAfter B.chain (chainAcc B.chain.pre B.st))).andThen (finalM flowWasEmpty rest)
+    else finalM flowWasEmpty rest
+  | .seq i run :: rest =>
+    if flowWasEmpty then (tag i (observe (run (.ofList [])))).andThen (finalM flowWasEmpty rest)
+    else finalM flowWasEmpty rest
+
+/-- the loop over the buffers; `flowWasEmpty` is true until the first buffer was read -/
+def splitLoopM : Bool → List (List α) → List (MActive σ α) → Strm (Nat × α)
+  | e, [], act => finalM e act
+  | _, buf :: bufs, act =>
+    let (act', out) := processBufM buf act
+    out.andThen (splitLoopM false bufs act')
+
+def Branch.activate (i : Nat) : Branch σ α → MActive σ α
+  | .fillCompute c => .fc { chain := c, st := chainInit c.acc.init c.pre, idx := i }
+  | .fillRequest c => .fr { chain := c, st := chainInit c.acc.init c.pre, idx := i }
+  | .sequence run => .seq i run
+  | .source out => .src i out
+
+def initActiveM : Nat → List (Branch σ α) → List (MActive σ α)
+  | _, [] => []
+  | i, b :: bs => b.activate i :: initActiveM (i + 1) bs
+
+/-- `Split(branches, bufsize).run(iter(xs))` for branches of any type, drained; every value tagged with the index of
+the branch it comes from.  `bufsize` is `none` or `≥ 1`. -/
+def splitRunM (bs : List (Branch σ α)) (bufsize : Option Nat) (xs : List α) : Strm (Nat × α) :=
+  splitLoopM true (chunks bufsize xs) (initActiveM 0 bs)
+
+end mixed
+
+/-! ### the constructors of the branches (`_get_seq_with_type`, `Source.__init__`, `FillRequestSeq.__init__`) -/
+
+/-- `check_sequence_type.is_fill_request_el` -/
+def Caps.isFillRequestEl (c : Caps) : Bool :=
+  (c.attr "fill").present && (c.attr "request").present && (c.attr "fill").callable && (c.attr "request").callable
+
+/-- the only fill/request element of the vocabulary is an instance of the synthetic class with `fill` and `request`:
+`fill` appends to a list, `request` yields `["request", [filled values]]` and changes nothing -/
+def synReqAcc : Acc AccState Value :=
+  { init := {}
+    fill := fun s v => .ok { s with group := s.group ++ [v] }
+    compute := fun s => .ok [.list [.str "request", .list s.group]] }
+
+/-- `_init_sequence_with_el` with `is_fill_request_el` (the split of a `FillRequestSeq`) -/
+def splitAtFr : List Obj → Option (List Obj × Obj × List Obj)
+  | [] => none
+  | o :: os =>
+    if o.caps.isFillRequestEl then some ([], o, os)
+    else
+      match splitAtFr os with
+      | none => none
+      | some (b, fr, a) => some (o :: b, fr, a)
+
+/-- `FillRequestSeq(*args, bufsize=…, reset=False, buffer_input=True)` as `Split` uses it (`fill`, `request`):
+`_FillSeq(*before, el)`, `_Sequence(*after)`.  The arguments are taken as they are (no `_has_no_data` filter in
+`_init_sequence_with_el`); `LenaSequence.__init__` at the end filters the elements, which cannot fail. -/
+def mkFillRequestSeq (args : List Obj) : Except Exc (Chain AccState Value) :=
+  match splitAtFr args with
+  | none => .error .lenaTypeError
+  | some (before, fr, after) =>
+    match mkFillSeqArgs (before ++ [fr]) with
+    | .error e => .error e
+    | .ok pre =>
+      match toStages (dataSeq after) with
+      | .error e => .error e
+      | .ok post => .ok { pre := pre, acc := synReqAcc, post := post }
+
+/-- a branch as it is handed to `Split`: a tuple of elements, or an explicit `Source(first, *tail)` whose first
+element is an iterable (or a function returning an iterator) over `vals` -/
+inductive BranchSpec where
+  | tuple (els : List Spec)
+  | source (vals : List Value) (tail : List Spec)
+
+/-- `_get_seq_with_type(seq, bufsize)` for a tuple of objects (lines 35-70): a `FillComputeSeq` if any element is a
+fill/compute element, else a `FillRequestSeq` if any element is a fill/request element (its own `bufsize` must be a
+natural number: `LenaValueError`), else a `Sequence`; every `LenaTypeError` is re-raised as `LenaTypeError` -/
+def mkBranchTuple (os : List Obj) (bufsizeOk : Bool) : Except Exc (Branch AccState Value) :=
+  if os.any (fun o => o.caps.isFillComputeEl) then
+    match mkFillComputeSeq os with
+    | .error e => .error e
+    | .ok c => .ok (.fillCompute c)
+  else if os.any (fun o => o.caps.isFillRequestEl) then
+    match mkFillRequestSeq os with
+    | .error e => .error e
+    | .ok c => if bufsizeOk then .ok (.fillRequest c) else .error .lenaValueError
+  else
+    match mkSequence os with
+    | .error e => .error e
+    | .ok st => .ok (.sequence st)
+
+/-- `Source(vals, *tail)`: `__call__` returns `self._tail.run(flow)` (or `iter(flow)` without a tail) -/
+def mkSource (vals : List Value) (tail : List Obj) : Except Exc (Branch AccState Value) :=
+  match mkSequence tail with
+  | .error e => .error e
+  | .ok st => .ok (.source (observe (st (.ofList vals))))
+
+/-- the elements of all branches are constructed first (argument evaluation), in order -/
+def BranchSpec.toObjs : BranchSpec → Except Exc (List Obj)
+  | .tuple els => Spec.toObjs els
+  | .source _ tail => Spec.toObjs tail
+
+def branchObjs : List BranchSpec → Except Exc (List (BranchSpec × List Obj))
+  | [] => .ok []
+  | b :: bs =>
+    match b.toObjs with
+    | .error e => .error e
+    | .ok os =>
+      match branchObjs bs with
+      | .error e => .error e
+      | .ok rest => .ok ((b, os) :: rest)
+
+def mkBranches (bufsizeOk : Bool) : List (BranchSpec × List Obj) → Except Exc (List (Branch AccState Value))
+  | [] => .ok []
+  | (b, os) :: rest =>
+    match (match b with
+           | .tuple _ => mkBranchTuple os bufsizeOk
+           | .source vals _ => mkSource vals os) with
+    | .error e => .error e
+    | .ok br =>
+      match mkBranches bufsizeOk rest with
+      | .error e => .error e
+      | .ok brs => .ok (br :: brs)
+
+/-- `Split(branches, bufsize).run(iter(flow))` for branches of any type; integer or `None` bufsize -/
+def driveSplitM (branches : List BranchSpec) (bufsize : Option Int) (flow : List Value) :
+    Except Exc (Strm (Nat × Value)) :=
+  match branchObjs branches with
+  | .error e => .error e
+  | .ok bos =>
+    match mkBranches (bufsizeOk bufsize) bos with
+    | .error e => .error e
+    | .ok brs =>
+      if !bufsizeOk bufsize then .error .lenaValueError
+      else .ok (splitRunM brs (bufsize.map Int.toNat) flow)
+
 end Lena.C05
